@@ -27,6 +27,8 @@ def c_reference_setter(eng):
             stored = [r.kind == 2, r.owner == x.recv.e]
         elif isinstance(x, VNone):
             stored = [r.kind == 0]
+        elif isinstance(x, (VLambda, VPartial)):          # a closure / partial application: a callable whose target the contract does not know (neither the values nor a method of the owner)
+            stored = [r.kind == 3]
         else:
             raise Unsupported("reference value " + type(x).__name__)
         g = lambda f: vw.f(vw.post, vw.self, f)
